@@ -299,6 +299,16 @@ where T: Types
     }
 }
 
+#[cfg(feature = "verif-hooks")]
+impl<T> RaftLogWAL<T>
+where T: Types
+{
+    /// Non-blocking twin of [`Self::wait_worker_idle`].
+    pub(crate) fn verif_worker_idle(&self) -> bool {
+        self.done_seq.load(Ordering::Relaxed) >= self.sent_seq
+    }
+}
+
 impl<T> WAL<WALRecord<T>> for RaftLogWAL<T>
 where T: Types
 {
